@@ -1,6 +1,9 @@
 /-
   C17 — how a dataclass is written does not change its command line.
-  Theorems about `SpVerif.Model.Annot`.
+  Theorems about `SpVerif.Model.Annot`.  Main result: `c17_style_invariant_partial` (options + `postprocess` arm equal in
+  all six renderings on `InCliGrammar`; named gap `ListItemsNotContainers` = open finding C17-list-of-containers, witness
+  `c17_list_of_containers_witness`, `FullStatement` refuted).  `c17_post_live` needs no grammar restriction.
+  Inheritance: `c17_inherit_order`, `c17_inherit_last_wins` (any chain, re-declared fields included), `c17_inherit`.
 -/
 import SpVerif.Model.Annot
 namespace SpVerif.C17
@@ -57,6 +60,7 @@ def ListItemsNotContainers : TyExpr → Bool
 /-- field types of the command-line grammar -/
 def InCliGrammar : TyExpr → Bool
   | .dc _ => true
+  | .opt (.dc _) => true
   | e => robust e && ListItemsNotContainers e
 
 /-! ### representation-independent facts -/
@@ -170,6 +174,23 @@ end
 
 /-! ### the options a field gets -/
 
+theorem noDc_denote (l : Live) : ∀ e : TyExpr, robust e = true → isDataclass (denoteLive l e) = false
+  | .atom a, _ => by cases a <;> simp [denoteLive, atomCls, isDataclass]
+  | .dc _, h => by simp [robust] at h
+  | .list _, _ => by cases l <;> simp [denoteLive, mkList, isDataclass]
+  | .tuple _, _ => by cases l <;> simp [denoteLive, mkTuple, isDataclass]
+  | .vtuple _, _ => by cases l <;> simp [denoteLive, mkTuple, isDataclass]
+  | .union _, _ => by cases l <;> simp [denoteLive, mkUnion, isDataclass]
+  | .opt e, _ => by cases e <;> cases l <;> simp [denoteLive, mkUnion, isDataclass]
+
+theorem noDc_denoteL (l : Live) : ∀ es : List TyExpr, robustMembers es = true → (denoteLiveL l es).any isDataclass = false
+  | [], _ => by simp [denoteLiveL]
+  | e :: es, h => by
+    simp [robustMembers] at h
+    have ih := noDc_denoteL l es h.2
+    simp only [denoteLiveL, List.any_cons, noDc_denote l e h.1.1, ih]
+    rfl
+
 theorem kind_mkList (l l' : Live) (x : Ann) (d : Dflt) : kind (mkList l x) d = kind (mkList l' x) d := by
   cases l <;> cases l' <;> rfl
 
@@ -180,10 +201,14 @@ theorem kind_union_repr (xs : List Ann) (d : Dflt) : kind (.unionType xs) d = ki
   have e1 : isOptional (.unionType xs) = isOptional (.typing .union xs) := rfl
   have e2 : wrappedType (.unionType xs) = wrappedType (.typing .union xs) := rfl
   have e3 : parsingFn (.unionType xs) = parsingFn (.typing .union xs) := by simp [parsingFn]
-  by_cases h : isOptional (.typing .union xs) = true
-  · simp [kind, e1, e2, h, isDataclass]
-  · simp at h
-    cases d <;> simp [kind, e1, e3, h, isDataclass, isUnion, isTuple, isList, mro, required0]
+  have e0 : containsDc (.unionType xs) = containsDc (.typing .union xs) := rfl
+  by_cases hc : containsDc (.typing .union xs) = true
+  · simp [kind, e0, hc]
+  · simp at hc
+    by_cases h : isOptional (.typing .union xs) = true
+    · simp [kind, e0, hc, e1, e2, h]
+    · simp at h
+      cases d <;> simp [kind, e0, hc, e1, e3, h, isUnion, isTuple, isList, mro, required0]
 
 theorem kind_mkUnion (l l' : Live) (xs : List Ann) (d : Dflt) : kind (mkUnion l xs) d = kind (mkUnion l' xs) d := by
   cases l <;> cases l' <;> simp [mkUnion, kind_union_repr]
@@ -191,17 +216,21 @@ theorem kind_mkUnion (l l' : Live) (xs : List Ann) (d : Dflt) : kind (mkUnion l 
 theorem kind_vtuple (l l' : Live) (x x' : Ann) (d : Dflt) (hp : parsingFn x = parsingFn x') :
     kind (mkTuple l [x, .ellipsis]) d = kind (mkTuple l' [x', .ellipsis]) d := by
   cases l <;> cases l' <;> cases d <;>
-    simp [kind, mkTuple, isDataclass, isOptional, isUnion, isEnum, isList, isTuple, mro, required0, containerNargs,
-      getArgs, parsingFn, isHomogeneous, parsingFnHead, hp]
+    simp [kind, mkTuple, containsDc, isDataclass, isOptional, isUnion, isEnum, isList, isTuple, mro, required0,
+      containerNargs, getArgs, parsingFn, isHomogeneous, parsingFnHead, hp]
 
 theorem kind_union_plain (xs xs' : List Ann) (d : Dflt) (h1 : xs.any isNoneType = false)
-    (h2 : xs'.any isNoneType = false) (hp : parsingFnL xs = parsingFnL xs') :
+    (h2 : xs'.any isNoneType = false) (g1 : xs.any isDataclass = false) (g2 : xs'.any isDataclass = false)
+    (hp : parsingFnL xs = parsingFnL xs') :
     kind (.typing .union xs) d = kind (.typing .union xs') d := by
+  have d0 : ∀ ys, isDataclass (.typing .union ys) = false := fun _ => rfl
+  have c1 : containsDc (.typing .union xs) = false := by simp only [containsDc, d0, isUnion, getArgs, g1]; rfl
+  have c2 : containsDc (.typing .union xs') = false := by simp only [containsDc, d0, isUnion, getArgs, g2]; rfl
   have o1 : isOptional (.typing .union xs) = false := by simp [isOptional, isUnion, getArgs]; simpa using h1
   have o2 : isOptional (.typing .union xs') = false := by simp [isOptional, isUnion, getArgs]; simpa using h2
   have p1 : parsingFn (.typing .union xs) = .tryFns (parsingFnL xs) := by simp [parsingFn, h1]
   have p2 : parsingFn (.typing .union xs') = .tryFns (parsingFnL xs') := by simp [parsingFn, h2]
-  cases d <;> simp [kind, isDataclass, o1, o2, p1, p2, hp, isUnion, isTuple, isList, mro, required0]
+  cases d <;> simp [kind, c1, c2, o1, o2, p1, p2, hp, isUnion, isTuple, isList, mro, required0]
 
 theorem denote_unionish (l : Live) (x : TyExpr) (h : isUnionOrOpt x = true) : ∃ ys, denoteLive l x = mkUnion l ys := by
   cases x with
@@ -220,11 +249,11 @@ theorem kind_list_union (l l' m m' : Live) (ys ys' : List Ann) (d : Dflt)
   have c1 := ctf_list_union l m ys
   have c2 := ctf_list_union l' m' ys'
   cases l <;> cases l' <;> cases d <;>
-    simp [kind, mkList, isDataclass, isOptional, isUnion, isEnum, isList, isTuple, mro, required0, getArgs] at c1 c2 ⊢ <;>
+    simp [kind, mkList, containsDc, isDataclass, isOptional, isUnion, isEnum, isList, isTuple, mro, required0, getArgs] at c1 c2 ⊢ <;>
     simp [mkList, c1, c2, hp]
 
 /-- an `Optional[w]` field: the branch is chosen on the wrapped type `w` -/
-theorem kind_opt_single (w : Ann) (d : Dflt) (hn : isNoneType w = false) :
+theorem kind_opt_single (w : Ann) (d : Dflt) (hn : isNoneType w = false) (hdc : isDataclass w = false) :
     kind (.typing .union [w, .cls .none]) d =
       (if isTuple w then ⟨.optional, false, containerNargs w, some (parsingFn w), Option.none⟩
        else if isList w then ⟨.optional, false, .star, some (containerTypeFn w), Option.none⟩
@@ -233,7 +262,12 @@ theorem kind_opt_single (w : Ann) (d : Dflt) (hn : isNoneType w = false) :
   have ww : wrappedType (.typing .union [w, .cls .none]) = w := by
     have hc : isNoneType (.cls .none) = true := rfl
     simp [wrappedType, getArgs, List.filter, hn, hc]
-  simp [kind, isDataclass, o, ww]
+  have c : containsDc (.typing .union [w, .cls .none]) = false := by
+    have d0 : isDataclass (.typing .union [w, .cls .none]) = false := rfl
+    have d1 : isDataclass (.cls .none) = false := rfl
+    simp only [containsDc, d0, isUnion, getArgs, List.any_cons, List.any_nil, hdc, d1]
+    rfl
+  simp [kind, c, o, ww]
 
 /-- **Live renderings.** For every field type of the command-line grammar the options a field gets do not depend on
     whether the annotation is written with `typing` generics, builtin generics or PEP 604 unions. -/
@@ -265,7 +299,8 @@ theorem c17_live_invariant (l l' : Live) (d : Dflt) : ∀ e : TyExpr, InCliGramm
     simp only [denoteLive]
     rw [kind_mkUnion l .typing, kind_mkUnion l' .typing]
     simp only [mkUnion]
-    exact kind_union_plain _ _ d (any_none_denoteL l es) (any_none_denoteL l' es) (parsingFnL_style l l' es h)
+    exact kind_union_plain _ _ d (any_none_denoteL l es) (any_none_denoteL l' es) (noDc_denoteL l es h)
+      (noDc_denoteL l' es h) (parsingFnL_style l l' es h)
   | .opt (.union es), h => by
     simp [InCliGrammar, robust, ListItemsNotContainers] at h
     simp only [denoteLive, denoteL_atoms l l' es h]
@@ -273,15 +308,17 @@ theorem c17_live_invariant (l l' : Live) (d : Dflt) : ∀ e : TyExpr, InCliGramm
   | .opt (.atom a), _ => by
     simp only [denoteLive]
     exact kind_mkUnion l l' _ d
-  | .opt (.dc n), h => by simp [InCliGrammar, robust] at h
+  | .opt (.dc n), _ => by
+    simp only [denoteLive]
+    exact kind_mkUnion l l' _ d
   | .opt (.opt e), h => by simp [InCliGrammar, robust, isUnionOrOpt] at h
   | .opt (.list x), h => by
     simp [InCliGrammar, robust, ListItemsNotContainers, isUnionOrOpt, itemOk] at h
     simp only [denoteLive]
     rw [kind_mkUnion l .typing, kind_mkUnion l' .typing]
     simp only [mkUnion]
-    rw [kind_opt_single _ d (by cases l <;> simp [mkList, isNoneType]),
-        kind_opt_single _ d (by cases l' <;> simp [mkList, isNoneType])]
+    rw [kind_opt_single _ d (by cases l <;> simp [mkList, isNoneType]) (by cases l <;> simp [mkList, isDataclass]),
+        kind_opt_single _ d (by cases l' <;> simp [mkList, isNoneType]) (by cases l' <;> simp [mkList, isDataclass])]
     rcases h.2 with ha | hu
     · rw [denote_atom l l' x ha]
       cases l <;> cases l' <;> simp [mkList, isTuple, isList, mro, containerTypeFn, getArgs]
@@ -299,8 +336,8 @@ theorem c17_live_invariant (l l' : Live) (d : Dflt) : ∀ e : TyExpr, InCliGramm
     simp only [denoteLive, denoteL_atoms l l' es h]
     rw [kind_mkUnion l .typing, kind_mkUnion l' .typing]
     simp only [mkUnion]
-    rw [kind_opt_single _ d (by cases l <;> simp [mkTuple, isNoneType]),
-        kind_opt_single _ d (by cases l' <;> simp [mkTuple, isNoneType])]
+    rw [kind_opt_single _ d (by cases l <;> simp [mkTuple, isNoneType]) (by cases l <;> simp [mkTuple, isDataclass]),
+        kind_opt_single _ d (by cases l' <;> simp [mkTuple, isNoneType]) (by cases l' <;> simp [mkTuple, isDataclass])]
     cases l <;> cases l' <;> simp [mkTuple, isTuple, mro, containerNargs, getArgs, parsingFn]
   | .opt (.vtuple x), h => by
     simp [InCliGrammar, robust, ListItemsNotContainers, isUnionOrOpt] at h
@@ -308,8 +345,8 @@ theorem c17_live_invariant (l l' : Live) (d : Dflt) : ∀ e : TyExpr, InCliGramm
     simp only [denoteLive]
     rw [kind_mkUnion l .typing, kind_mkUnion l' .typing]
     simp only [mkUnion]
-    rw [kind_opt_single _ d (by cases l <;> simp [mkTuple, isNoneType]),
-        kind_opt_single _ d (by cases l' <;> simp [mkTuple, isNoneType])]
+    rw [kind_opt_single _ d (by cases l <;> simp [mkTuple, isNoneType]) (by cases l <;> simp [mkTuple, isDataclass]),
+        kind_opt_single _ d (by cases l' <;> simp [mkTuple, isNoneType]) (by cases l' <;> simp [mkTuple, isDataclass])]
     cases l <;> cases l' <;>
       simp [mkTuple, isTuple, mro, containerNargs, getArgs, parsingFn, isHomogeneous, parsingFnHead, hp]
 
@@ -336,11 +373,6 @@ theorem resolve_live (ev : Str → EvOut) (l : Live) : ∀ e : TyExpr, resolve e
   | .vtuple _ => by cases l <;> simp [denoteLive, mkTuple, resolve]
   | .union _ => by cases l <;> simp [denoteLive, mkUnion, resolve]
   | .opt e => by cases e <;> cases l <;> simp [denoteLive, mkUnion, resolve]
-
-theorem resolve_idem (ev : Str → EvOut) (a b : Ann) (h : resolve ev a = .ok b) (hb : ∀ t, b ≠ .strAnn t) :
-    resolve ev b = .ok b := by
-  cases b <;> simp [resolve]
-  exact absurd rfl (hb _)
 
 /-- postponed text whose value is not a top-level `X | Y`: resolution returns the evaluated object unchanged -/
 theorem resolve_postponed_plain (ev : Str → EvOut) (l : Live) (e : TyExpr)
@@ -385,7 +417,7 @@ def normal : TyExpr → Bool
   | .atom _ => true
   | .dc _ => true
   | .list e => normal e
-  | .tuple es => normalL es
+  | .tuple es => normalL es && !es.isEmpty        -- `Tuple[]` is not an expression CPython accepts
   | .vtuple e => normal e
   | .opt (.union es) => normalL es && distinctL (denoteLiveL .builtin es) && decide (2 ≤ es.length)
   | .opt e => normal e
@@ -577,10 +609,19 @@ theorem resolve_postponed (ev : Str → EvOut) (l : Live) (e : TyExpr) (hg : InC
     | typing => exact ⟨.typing, resolve_postponed_plain ev .typing e hev (Or.inl (by decide))⟩
     | builtin => exact ⟨.builtin, resolve_postponed_plain ev .builtin e hev (Or.inl (by decide))⟩
     | pep604 =>
-      have hr : robust e = true := by
-        cases e <;> simp [isUnionOrOpt] at hu <;> simp [InCliGrammar] at hg <;> exact hg.1
       obtain ⟨ys, e1⟩ := denote_unionish .pep604 e hu
-      have r := replace_denote e hr hn
+      have r : replaceUnion (denoteLive .pep604 e) = .ok (denoteLive .builtin e) := by
+        match e, hg, hn with
+        | .opt (.dc n), _, _ =>
+          simp [denoteLive, mkUnion, replaceUnion, replaceUnionL, mkTypingUnion, flattenUnion, dedupAnn, annEq, bind,
+            Except.bind, pure, Except.pure]
+        | .opt (.atom a), hg, hn => exact replace_denote _ (by simpa [InCliGrammar] using And.left (by simpa [InCliGrammar] using hg)) hn
+        | .opt (.list x), hg, hn => exact replace_denote _ (by simp [InCliGrammar] at hg; exact hg.1) hn
+        | .opt (.tuple x), hg, hn => exact replace_denote _ (by simp [InCliGrammar] at hg; exact hg.1) hn
+        | .opt (.vtuple x), hg, hn => exact replace_denote _ (by simp [InCliGrammar] at hg; exact hg.1) hn
+        | .opt (.opt x), hg, hn => exact replace_denote _ (by simp [InCliGrammar] at hg; exact hg.1) hn
+        | .opt (.union x), hg, hn => exact replace_denote _ (by simp [InCliGrammar] at hg; exact hg.1) hn
+        | .union x, hg, hn => exact replace_denote _ (by simp [InCliGrammar] at hg; exact hg.1) hn
       refine ⟨.builtin, ?_⟩
       simp only [denote, resolve, hev]
       rw [e1] at r ⊢
@@ -594,11 +635,122 @@ theorem resolve_any (ev : Str → EvOut) (s : Style) (e : TyExpr) (hg : InCliGra
   | .live l, _ => exact ⟨l, resolve_live ev l e⟩
   | .postponed l, hev => exact resolve_postponed ev l e hg hn hev
 
-/-- **Style invariance.**  For every field type of the command-line grammar in CPython's normal form, every pair of
-    renderings — `typing` generics, builtin generics, PEP 604 unions, postponed text of any of these — gives the field the
-    same argparse options (same branch of `get_arg_options`, same `required`, `nargs` and `type=` callable), under the
-    assumption that CPython evaluates the postponed text to the object it denotes.  No rendering is excluded. -/
-theorem c17_style_invariant (ev : Str → EvOut) (e : TyExpr) (s₁ s₂ : Style) (d : Dflt)
+/-! #### `postprocess`: the second look at the annotation -/
+
+theorem isTuple_denote (l l' : Live) (e : TyExpr) : isTuple (denoteLive l e) = isTuple (denoteLive l' e) := by
+  cases e with
+  | opt x => cases x <;> cases l <;> cases l' <;> simp [denoteLive, mkUnion, isTuple, mro]
+  | atom a => simp [denoteLive]
+  | dc n => simp [denoteLive]
+  | _ => cases l <;> cases l' <;> simp [denoteLive, mkList, mkTuple, mkUnion, isTuple, mro]
+
+theorem postBranch_union_repr (xs : List Ann) : postBranch (.unionType xs) = postBranch (.typing .union xs) := by
+  simp [postBranch, isEnum, isTuple, isBool, isList, mro, isOptional, isUnion, getArgs]
+
+theorem postBranch_mkUnion (l l' : Live) (xs : List Ann) : postBranch (mkUnion l xs) = postBranch (mkUnion l' xs) := by
+  cases l <;> cases l' <;> simp [mkUnion, postBranch_union_repr]
+
+theorem postBranch_typing_union (ys : List Ann) :
+    postBranch (.typing .union ys) =
+      if ys.any isNoneType then
+        (match ys with
+         | item :: _ => if isTuple item then .optTuple else .same
+         | [] => .same)
+      else .callFails := by
+  have e1 : isEnum (.typing .union ys) = false := rfl
+  have e2 : isTuple (.typing .union ys) = false := rfl
+  have e3 : isBool (.typing .union ys) = false := rfl
+  have e4 : isList (.typing .union ys) = false := rfl
+  have e5 : isOptional (.typing .union ys) = ys.any isNoneType := by simp [isOptional, isUnion, getArgs]
+  have e6 : getArgs (.typing .union ys) = ys := rfl
+  unfold postBranch
+  simp only [e1, e2, e3, e4, e5, e6, Bool.false_eq_true, ↓reduceIte]
+  split <;> rfl
+
+/-- the arm of `postprocess` taken by a union depends on its first member only through `is_tuple` -/
+theorem postBranch_union_head (x x' : Ann) (xs xs' : List Ann) (ht : isTuple x = isTuple x')
+    (hn : (x :: xs).any isNoneType = (x' :: xs').any isNoneType) :
+    postBranch (.typing .union (x :: xs)) = postBranch (.typing .union (x' :: xs')) := by
+  rw [postBranch_typing_union, postBranch_typing_union, hn]
+  simp only [ht]
+
+/-- **`postprocess` takes the same arm in every live rendering — for every type expression, no grammar restriction.** -/
+theorem c17_post_live (l l' : Live) : ∀ e : TyExpr, postBranch (denoteLive l e) = postBranch (denoteLive l' e)
+  | .atom a => by simp [denoteLive]
+  | .dc n => by simp [denoteLive]
+  | .list x => by cases l <;> cases l' <;> simp [denoteLive, mkList, postBranch, isEnum, isTuple, isBool, isList, mro]
+  | .tuple es => by cases l <;> cases l' <;> simp [denoteLive, mkTuple, postBranch, isEnum, isTuple, mro]
+  | .vtuple x => by cases l <;> cases l' <;> simp [denoteLive, mkTuple, postBranch, isEnum, isTuple, mro]
+  | .union [] => by simp only [denoteLive, denoteLiveL]; exact postBranch_mkUnion l l' _
+  | .union (e :: es) => by
+    simp only [denoteLive, denoteLiveL]
+    rw [postBranch_mkUnion l .typing, postBranch_mkUnion l' .typing]
+    simp only [mkUnion]
+    refine postBranch_union_head _ _ _ _ (isTuple_denote l l' e) ?_
+    have a1 := any_none_denoteL l (e :: es)
+    have a2 := any_none_denoteL l' (e :: es)
+    simp only [denoteLiveL] at a1 a2
+    rw [a1, a2]
+  | .opt (.union []) => by simp only [denoteLive, denoteLiveL]; exact postBranch_mkUnion l l' _
+  | .opt (.union (e :: es)) => by
+    simp only [denoteLive, denoteLiveL, List.cons_append]
+    rw [postBranch_mkUnion l .typing, postBranch_mkUnion l' .typing]
+    simp only [mkUnion]
+    refine postBranch_union_head _ _ _ _ (isTuple_denote l l' e) ?_
+    simp [isNoneType]
+  | .opt (.atom a) => by simp only [denoteLive]; exact postBranch_mkUnion l l' _
+  | .opt (.dc n) => by simp only [denoteLive]; exact postBranch_mkUnion l l' _
+  | .opt (.list x) => by
+    simp only [denoteLive]
+    rw [postBranch_mkUnion l .typing, postBranch_mkUnion l' .typing]
+    simp only [mkUnion]
+    exact postBranch_union_head _ _ _ _ (by simpa [denoteLive] using isTuple_denote l l' (.list x)) (by simp [isNoneType])
+  | .opt (.tuple x) => by
+    simp only [denoteLive]
+    rw [postBranch_mkUnion l .typing, postBranch_mkUnion l' .typing]
+    simp only [mkUnion]
+    exact postBranch_union_head _ _ _ _ (by simpa [denoteLive] using isTuple_denote l l' (.tuple x)) (by simp [isNoneType])
+  | .opt (.vtuple x) => by
+    simp only [denoteLive]
+    rw [postBranch_mkUnion l .typing, postBranch_mkUnion l' .typing]
+    simp only [mkUnion]
+    exact postBranch_union_head _ _ _ _ (by simpa [denoteLive] using isTuple_denote l l' (.vtuple x)) (by simp [isNoneType])
+  | .opt (.opt x) => by
+    simp only [denoteLive]
+    rw [postBranch_mkUnion l .typing, postBranch_mkUnion l' .typing]
+    simp only [mkUnion]
+    exact postBranch_union_head _ _ _ _ (isTuple_denote l l' (.opt x)) (by simp [isNoneType])
+
+/-- everything simple_parsing derives from a field's annotation: the `add_argument` options and the `postprocess` arm;
+    nothing when resolution raised -/
+def optionsOf : ROut → Dflt → Option (FieldKind × PostK)
+  | .ok a, d => some (kind a d, postBranch a)
+  | .raise _, _ => Option.none
+
+/-- **The full statement** (kept visible; refuted by `c17_list_of_containers_witness`): however a field type in CPython's
+    normal form is written, the field gets the same options and the same post-processing. -/
+def FullStatement : Prop :=
+  ∀ (ev : Str → EvOut) (e : TyExpr) (s₁ s₂ : Style) (d : Dflt), normal e = true → EvalOk ev s₁ e → EvalOk ev s₂ e →
+    optionsOf (resolve ev (denote s₁ e)) d = optionsOf (resolve ev (denote s₂ e)) d
+
+/-- **Style invariance (partial — named gap `ListItemsNotContainers`, finding C17-list-of-containers).**  For every field
+    type of `InCliGrammar` in CPython's normal form, every pair of renderings — `typing` generics, builtin generics,
+    PEP 604 unions, postponed text of any of these — gives the field the same argparse options (same branch of
+    `get_arg_options`, same `required`, `nargs`, `type=` callable) and the same `postprocess` arm, under the assumption
+    that CPython evaluates the postponed text to the object it denotes.  No rendering is excluded.  (`InCliGrammar`
+    further restricts, for the proof only, fixed-tuple items and `Optional[Union[…]]` members to atoms:
+    `TupleItemsAtomic`, `OptionalUnionMembersAtomic` below name these; the differential check covers them.) -/
+theorem c17_style_invariant_partial (ev : Str → EvOut) (e : TyExpr) (s₁ s₂ : Style) (d : Dflt)
+    (hg : InCliGrammar e = true) (hn : normal e = true) (h₁ : EvalOk ev s₁ e) (h₂ : EvalOk ev s₂ e) :
+    optionsOf (resolve ev (denote s₁ e)) d = optionsOf (resolve ev (denote s₂ e)) d := by
+  obtain ⟨l₁, r₁⟩ := resolve_any ev s₁ e hg hn h₁
+  obtain ⟨l₂, r₂⟩ := resolve_any ev s₂ e hg hn h₂
+  rw [r₁, r₂]
+  simp only [optionsOf]
+  rw [c17_live_invariant l₁ l₂ d e hg, c17_post_live l₁ l₂ e]
+
+/-- the earlier statement about the options alone -/
+theorem c17_style_invariant_kind (ev : Str → EvOut) (e : TyExpr) (s₁ s₂ : Style) (d : Dflt)
     (hg : InCliGrammar e = true) (hn : normal e = true) (h₁ : EvalOk ev s₁ e) (h₂ : EvalOk ev s₂ e) :
     kindOf (resolve ev (denote s₁ e)) d = kindOf (resolve ev (denote s₂ e)) d := by
   obtain ⟨l₁, r₁⟩ := resolve_any ev s₁ e hg hn h₁
@@ -606,6 +758,23 @@ theorem c17_style_invariant (ev : Str → EvOut) (e : TyExpr) (s₁ s₂ : Style
   rw [r₁, r₂]
   simp only [kindOf]
   rw [c17_live_invariant l₁ l₂ d e hg]
+
+/-- **Resolution is idempotent** on the grammar: what a postponed annotation resolves to is a live object, and resolving
+    that again (a second parser built from the same class, whose `Field.type` was updated in place) changes nothing -/
+theorem c17_resolve_idem (ev : Str → EvOut) (s : Style) (e : TyExpr) (hg : InCliGrammar e = true)
+    (hn : normal e = true) (hev : EvalOk ev s e) :
+    ∃ b, resolve ev (denote s e) = .ok b ∧ resolve ev b = .ok b := by
+  obtain ⟨l, r⟩ := resolve_any ev s e hg hn hev
+  exact ⟨_, r, resolve_live ev l e⟩
+
+/-- the proof-only restrictions inside `InCliGrammar`, by name (decidable) -/
+def TupleItemsAtomic : TyExpr → Bool
+  | .tuple es => allAtoms es
+  | .opt (.tuple es) => allAtoms es
+  | _ => true
+def OptionalUnionMembersAtomic : TyExpr → Bool
+  | .opt (.union es) => allAtoms es
+  | _ => true
 
 /-! non-vacuity: a deep type of the grammar; the evaluator assumption is satisfiable for every style -/
 def exTy : TyExpr :=
@@ -618,6 +787,8 @@ example : InCliGrammar exTy = true ∧ normal exTy = true := by decide
 example : EvalOk (exEv exTy) (.postponed .pep604) exTy := by simp [EvalOk, exEv]
 example : InCliGrammar (.opt (.list (.union [.atom .int, .atom .str]))) = true ∧
     normal (.opt (.list (.union [.atom .int, .atom .str]))) = true := by decide
+example : InCliGrammar (.opt (.dc "Child".toList)) = true ∧ normal (.opt (.dc "Child".toList)) = true := by decide
+example : (kind (denoteLive .pep604 (.opt (.dc "Child".toList))) .isNone).branch = .nested := by decide
 
 /-! ### regression examples for the two repaired defects -/
 
@@ -640,14 +811,29 @@ example : (match resolve (exEv vtTy) (denote (.postponed .pep604) vtTy) with
      | .ok _ => true
      | .raise _ => false) = true := by decide
 
-/-- why the grammar excludes lists of containers (`ListItemsNotContainers`): the item annotation itself is the
-    callable, and a `typing` alias (calling it raises `TypeError`) is not a builtin alias (`list(token)`) -/
-theorem c17_grammar_boundary :
-    InCliGrammar (.list (.list (.atom .int))) = false ∧
-    (match (kind (denoteLive .typing (.list (.list (.atom .int)))) .value).conv,
-           (kind (denoteLive .builtin (.list (.list (.atom .int)))) .value).conv with
+/-! ### witness: the open finding C17-list-of-containers -/
+
+def locTy : TyExpr := .list (.list (.atom .int))
+
+/-- **List of containers.** `List[List[int]]` hands argparse the `typing` alias itself (calling it raises `TypeError`:
+    every use of the option exits 2), `list[list[int]]` the builtin alias (`list(token)`: the token is split into
+    characters) — `get_argparse_type_for_container` returns the item annotation as the callable. -/
+theorem c17_list_of_containers_witness :
+    normal locTy = true ∧ InCliGrammar locTy = false ∧
+    (match (kind (denoteLive .typing locTy) .value).conv, (kind (denoteLive .builtin locTy) .value).conv with
      | some (.typingAlias .list), some (.builtinAlias .list) => true
      | _, _ => false) = true := by
+  decide
+
+theorem c17_full_statement_fails : ¬ FullStatement := by
+  intro h
+  have := h (exEv locTy) locTy (.live .typing) (.live .builtin) .value (by decide) trivial trivial
+  have h2 : (optionsOf (resolve (exEv locTy) (denote (.live .typing) locTy)) .value).map
+        (fun k => match k.1.conv with | some (.typingAlias _) => true | _ => false)
+      = (optionsOf (resolve (exEv locTy) (denote (.live .builtin) locTy)) .value).map
+        (fun k => match k.1.conv with | some (.typingAlias _) => true | _ => false) := by
+    rw [this]
+  revert h2
   decide
 
 /-! ### inherited fields -/
@@ -701,6 +887,102 @@ example : dcFields [[("a".toList, 1), ("b".toList, 2)], [("c".toList, 3)], [("b"
 
 example : (keys [[("f0".toList, 0), ("f1".toList, 1)], [], [("f2".toList, 2)]].flatten).Nodup := by decide
 
+/-! #### arbitrary chains, re-declared fields included: first-declaration order, last definition wins -/
+
+/-- names in first-occurrence order -/
+def firstOcc (acc : List Str) : List Str → List Str
+  | [] => acc
+  | k :: r => firstOcc (if k ∈ acc then acc else acc ++ [k]) r
+
+theorem keys_dictSet {β : Type} : ∀ (acc : List (Str × β)) (k : Str) (v : β),
+    keys (dictSet acc k v) = if k ∈ keys acc then keys acc else keys acc ++ [k]
+  | [], k, v => by simp [dictSet, keys]
+  | (k', v') :: r, k, v => by
+    by_cases h : k' = k
+    · simp [dictSet, keys, h]
+    · have ih := keys_dictSet r k v
+      have h' : ¬ k = k' := fun e => h e.symm
+      simp only [keys] at ih
+      by_cases hk : k ∈ List.map (fun x => x.fst) r
+      · simp [dictSet, h, keys, h', hk, ih]
+      · simp [dictSet, h, keys, h', hk, ih]
+
+theorem keys_addOwn {β : Type} : ∀ (own acc : List (Str × β)), keys (addOwn acc own) = firstOcc (keys acc) (keys own)
+  | [], acc => by simp [addOwn, keys, firstOcc]
+  | (k, v) :: r, acc => by
+    show keys (addOwn (dictSet acc k v) r) = firstOcc (keys acc) (k :: keys r)
+    rw [keys_addOwn r, keys_dictSet]
+    rfl
+
+theorem firstOcc_append (acc a b : List Str) : firstOcc acc (a ++ b) = firstOcc (firstOcc acc a) b := by
+  induction a generalizing acc with
+  | nil => simp [firstOcc]
+  | cons k r ih => simp [firstOcc, ih]
+
+/-- **Field order of any chain**: every declared name once, in the order of its *first* declaration along the chain -/
+theorem c17_inherit_order {β : Type} (chain : List (List (Str × β))) :
+    keys (dcFields chain) = firstOcc [] (keys chain.flatten) := by
+  have gen : ∀ (chain : List (List (Str × β))) (acc : List (Str × β)),
+      keys (chain.foldl addOwn acc) = firstOcc (keys acc) (keys chain.flatten) := by
+    intro chain
+    induction chain with
+    | nil => intro acc; simp [firstOcc, keys]
+    | cons own rest ih =>
+      intro acc
+      rw [List.foldl_cons, ih (addOwn acc own), keys_addOwn]
+      simp [keys, firstOcc_append]
+  simpa [dcFields, keys] using gen chain []
+
+/-- `d.get(k)` -/
+def dget {β : Type} : List (Str × β) → Str → Option β
+  | [], _ => Option.none
+  | (k', v) :: r, k => if k' = k then some v else dget r k
+
+/-- the last definition of `k` in a declaration sequence (`o` when there is none) -/
+def lastDef {β : Type} (o : Option β) (decls : List (Str × β)) (k : Str) : Option β :=
+  decls.foldl (fun o p => if p.1 = k then some p.2 else o) o
+
+theorem dget_dictSet {β : Type} : ∀ (acc : List (Str × β)) (k k' : Str) (v : β),
+    dget (dictSet acc k v) k' = if k = k' then some v else dget acc k'
+  | [], k, k', v => by simp [dictSet, dget]
+  | (k0, v0) :: r, k, k', v => by
+    have ih := dget_dictSet r k k' v
+    by_cases h0 : k0 = k
+    · subst h0
+      by_cases h : k0 = k' <;> simp [dictSet, dget, h]
+    · by_cases h1 : k0 = k'
+      · subst h1
+        have : ¬ k = k0 := fun e => h0 e.symm
+        simp [dictSet, h0, dget, this]
+      · simp [dictSet, h0, dget, h1, ih]
+
+theorem dget_addOwn {β : Type} : ∀ (own acc : List (Str × β)) (k : Str),
+    dget (addOwn acc own) k = lastDef (dget acc k) own k
+  | [], acc, k => by simp [addOwn, lastDef]
+  | (k0, v0) :: r, acc, k => by
+    show dget (addOwn (dictSet acc k0 v0) r) k = lastDef (dget acc k) ((k0, v0) :: r) k
+    rw [dget_addOwn r, dget_dictSet]
+    simp [lastDef]
+
+/-- **Field definition of any chain**: the *last* declaration of a name along the chain is the one in force -/
+theorem c17_inherit_last_wins {β : Type} (chain : List (List (Str × β))) (k : Str) :
+    dget (dcFields chain) k = lastDef Option.none chain.flatten k := by
+  have gen : ∀ (chain : List (List (Str × β))) (acc : List (Str × β)),
+      dget (chain.foldl addOwn acc) k = lastDef (dget acc k) chain.flatten k := by
+    intro chain
+    induction chain with
+    | nil => intro acc; simp [lastDef]
+    | cons own rest ih =>
+      intro acc
+      rw [List.foldl_cons, ih (addOwn acc own), dget_addOwn]
+      simp [lastDef, List.foldl_append]
+  simpa [dcFields, dget] using gen chain []
+
+/-- so two chains that declare the same names in the same first-declaration order with the same final definitions give
+    the same class — in particular a chain that re-declares fields and the flat class that declares each once -/
+example : dcFields [[("a".toList, 1), ("b".toList, 2)], [("c".toList, 3), ("a".toList, 7)]]
+    = dcFields [[("a".toList, 7), ("b".toList, 2), ("c".toList, 3)]] := by decide
+
 /-! ### the textual `A | B` rewriter -/
 
 /-- text without `|` is returned unchanged -/
@@ -720,6 +1002,17 @@ theorem c17_rewrite_flat (text : Str) (h : text.contains '|' = true) (h1 : (stri
 example : rewrite " int | None".toList = .ok "Union[int, None]".toList := by decide
 example : rewrite "tuple[int | None, str | float]".toList = .ok "tuple[Union[int, None], Union[str, float]]".toList := by
   decide
+
+/-- connection with the renderings: the PEP 604 text of an optional builtin atom is rewritten to the `typing` spelling
+    (on 3.12 this path is reached only through the `TypeError` arm of `resolve`, e.g. `"int" | None`) -/
+theorem c17_rewrite_optional_atom (a : Atom) (h : ∀ n, a ≠ .enum n) :
+    rewrite (render .pep604 (.opt (.atom a))) = .ok ("Union[".toList ++ atomText a ++ ", None]".toList) := by
+  cases a with
+  | enum n => exact absurd rfl (h n)
+  | _ => decide
+
+example : rewrite (render .pep604 (.union [.atom .int, .atom (.enum "Color".toList), .atom .path]))
+    = .ok "Union[int, Color, Path]".toList := by decide
 
 /-- the rewriter's documented gap (`# BUG: Need to handle things like bob[int] | None`): an assertion error -/
 theorem c17_rewrite_gap_witness : rewrite "list[int] | None".toList = .assertion := by decide
